@@ -1,7 +1,7 @@
 (* LoadRoundTrip.v — C04 for the tables of the working tree: loading the four parts a document is saved as gives
    the document back (normalised as a parser normalises, generator replaced, the used automatic styles). *)
 From Odf Require Import model.Base model.Chars model.XmlPrint model.XmlLex model.XmlTree model.Doc model.Inst model.LoadStyles model.Load model.LoadInst
-  gen.GenChars gen.GenNs gen.GenStyleRefs proofs.XmlRoundTrip proofs.XmlInst proofs.DocProofs proofs.AutoStylesProofs proofs.DocInst
+  gen.GenChars gen.GenNs gen.GenStyleRefs proofs.XmlRoundTrip proofs.XmlInst proofs.DocProofs proofs.AutoStylesProofs proofs.AutoStylesExact proofs.DocInst
   proofs.LoadStylesProofs proofs.LoadProofs.
 
 Definition cn := canon F.
@@ -15,6 +15,18 @@ Record sections_ok (d : odfdoc) : Prop := mkSO {
   so_styles : sect (q_off "styles") (d_styles d); so_auto : sect (q_off "automatic-styles") (d_auto d);
   so_master : sect (q_off "master-styles") (d_master d); so_body : sect (q_off "body") (d_body d) }.
 
+(* the general form: the eight office:* elements without attributes, holding anything at all *)
+Definition named (q : qname) (t : node) : Prop := exists ks, t = Elem q [] ks.
+Record sections_named (d : odfdoc) : Prop := mkSN {
+  sn_meta : named (q_off "meta") (d_meta d); sn_scripts : named (q_off "scripts") (d_scripts d);
+  sn_ffd : named (q_off "font-face-decls") (d_ffd d); sn_settings : named (q_off "settings") (d_settings d);
+  sn_styles : named (q_off "styles") (d_styles d); sn_auto : named (q_off "automatic-styles") (d_auto d);
+  sn_master : named (q_off "master-styles") (d_master d); sn_body : named (q_off "body") (d_body d) }.
+Lemma sect_named q t : sect q t -> named q t.
+Proof. intros [ks [E _]]. now exists ks. Qed.
+Lemma sections_ok_named d : sections_ok d -> sections_named d.
+Proof. intros [H1 H2 H3 H4 H5 H6 H7 H8]. constructor; now apply sect_named. Qed.
+
 Definition used_c (d : odfdoc) := used_auto_styles RA [d_styles d; d_body d] (d_auto d).
 Definition used_s (d : odfdoc) := used_auto_styles RA [d_master d] (d_auto d).
 Definition csec (t : node) : node := match t with Elem q a ks => Elem q a (map cn ks) | t => t end.
@@ -23,6 +35,14 @@ Definition csec (t : node) : node := match t with Elem q a ks => Elem q a (map c
 Definition expected (d : odfdoc) : odfdoc :=
   mkDoc (d_mime d) (csec (d_meta (norm_gen tv d))) (csec (d_scripts d)) (csec (d_ffd d)) (csec (d_settings d)) (csec (d_styles d))
         (Elem (q_off "automatic-styles") [] (map cn (used_c d) ++ map cn (used_s d))) (csec (d_master d)) (csec (d_body d)).
+
+(* in general: of the children of a section as a parser delivers them (CDATA is text, adjacent text merged) the loader
+   keeps all when there is an element among them and none otherwise *)
+Definition gk (ks : list node) : list node := keep (merge_text (map cn ks)).
+Definition gsec (t : node) : node := match t with Elem q a ks => Elem q a (gk ks) | t => t end.
+Definition expected_gen (d : odfdoc) : odfdoc :=
+  mkDoc (d_mime d) (gsec (d_meta (norm_gen tv d))) (gsec (d_scripts d)) (gsec (d_ffd d)) (gsec (d_settings d)) (gsec (d_styles d))
+        (Elem (q_off "automatic-styles") [] (map cn (used_c d) ++ map cn (used_s d))) (gsec (d_master d)) (gsec (d_body d)).
 
 (* the parts of the saved package, as parsed *)
 Definition p_settings (d : odfdoc) : option node := if has_kids (d_settings d) then Some (cn (settings_tree d)) else None.
@@ -62,6 +82,21 @@ Proof.
   intros H. rewrite forallb_forall in *. intros e He. apply H. now apply (written_styles_are_the_documents RA segs auto).
 Qed.
 
+(* the selected automatic styles are elements, whatever else office:automatic-styles holds *)
+Lemma used_elems segs auto : forallb is_element (used_auto_styles RA segs auto) = true.
+Proof.
+  apply forallb_forall. intros e He. destruct (used_exact RA segs auto) as (sel & names & E & L & _ & Hsel). rewrite E in He.
+  apply pick_selected in He as [i [Hi Hs]]. now apply (Hsel i e Hi).
+Qed.
+Lemma good_cn t : good_section (cn t).
+Proof.
+  intros q a ks E. pose proof (canon_nocdata F t) as H. fold cn in H. rewrite E in H. exact H.
+Qed.
+Lemma cn_named q ks : cn (Elem q [] ks) = Elem q [] (merge_text (map cn ks)).
+Proof. reflexivity. Qed.
+Lemma gk_elems ks : forallb is_element ks = true -> gk ks = map cn ks.
+Proof. intros H. unfold gk. rewrite (merge_text_elems _ (map_cn_elems ks H)). now apply keep_cn. Qed.
+
 (* routing of the section names *)
 Lemma R_set : route PnSettings (q_off "settings") = Some SSettings. Proof. vm_compute. reflexivity. Qed.
 Lemma R_meta : route PnMeta (q_off "meta") = Some SMeta. Proof. vm_compute. reflexivity. Qed.
@@ -81,25 +116,23 @@ Lemma sec_apply_none pn d q a ks : route pn q = None -> sec_apply pn d (Elem q a
 Proof. intros H. unfold sec_apply. now rewrite H. Qed.
 
 (* the part trees: a root whose children are the section elements *)
-Lemma part_content d : sections_ok d -> exists q a, cn (content_tree RA d) = Elem q a (secs_content d) /\ Forall good_section (secs_content d).
+Lemma good_map_cn l : Forall good_section (map cn l).
+Proof. apply Forall_forall. intros x Hx. apply in_map_iff in Hx as [y [<- _]]. apply good_cn. Qed.
+
+Lemma part_content d : sections_named d -> exists q a, cn (content_tree RA d) = Elem q a (secs_content d) /\ Forall good_section (secs_content d).
 Proof.
-  intros [_ [ksc [Esc Hsc]] [kff [Eff Hff]] _ [kst [Est Hst]] [kau [Eau Hau]] _ [kbo [Ebo Hbo]]].
-  assert (Hu : forallb is_element (used_c d) = true) by (apply used_elements; rewrite Eau; exact Hau).
-  assert (G : Forall good_section (secs_content d)).
-  { unfold secs_content. rewrite Esc, Eff, Ebo. unfold opt_kid, has_kids. cbn [kids_of].
-    destruct ksc as [|x1 r1], kff as [|x2 r2]; cbn [app map]; repeat constructor; try (now apply good_cn_section). }
+  intros [_ [ksc Esc] [kff Eff] _ [kst Est] [kau Eau] _ [kbo Ebo]].
+  assert (G : Forall good_section (secs_content d)) by apply good_map_cn.
   eexists. eexists. split; [|exact G]. unfold content_tree. unfold cn at 1. cbn [canon]. fold cn. f_equal.
   unfold secs_content. apply merge_text_elems. apply forallb_forall. intros x Hx. apply in_map_iff in Hx as [y [<- Hy]].
   unfold cn. rewrite canon_is_element. rewrite Esc, Eff, Ebo in Hy.
   repeat (apply in_app_or in Hy as [Hy|Hy]); try (apply opt_kid_elem in Hy; subst y; reflexivity). destruct Hy as [<-|[<-|[]]]; reflexivity.
 Qed.
-Lemma part_styles d : sections_ok d -> exists q a, cn (styles_tree RA d) = Elem q a (secs_styles d) /\ Forall good_section (secs_styles d).
+Lemma part_styles d : sections_named d -> exists q a, cn (styles_tree RA d) = Elem q a (secs_styles d) /\ Forall good_section (secs_styles d).
 Proof.
-  intros [_ _ [kff [Eff Hff]] _ [kst [Est Hst]] [kau [Eau Hau]] [kma [Ema Hma]] _].
-  assert (Hu : forallb is_element (used_s d) = true) by (apply used_elements; rewrite Eau; exact Hau).
-  assert (G : Forall good_section (secs_styles d)).
-  { unfold secs_styles. rewrite Eff, Est, Ema. unfold opt_kid, has_kids. cbn [kids_of].
-    destruct kff as [|x1 r1], kma as [|x2 r2]; cbn [app map]; repeat constructor; try (now apply good_cn_section). }
+  intros [_ _ [kff Eff] _ [kst Est] [kau Eau] [kma Ema] _].
+  pose proof (used_elems [d_master d] (d_auto d)) as Hu. fold (used_s d) in Hu.
+  assert (G : Forall good_section (secs_styles d)) by apply good_map_cn.
   eexists. eexists. split; [|exact G]. unfold styles_tree. unfold cn at 1. cbn [canon]. fold cn. f_equal.
   rewrite !map_app. cbn [map]. fold (used_s d). rewrite (cn_auto_kids _ _ Hu), <- (cn_section _ _ Hu).
   replace (map cn (opt_kid (d_ffd d)) ++ [cn (d_styles d)] ++ [cn (Elem q_autostyles [] (used_s d))] ++ map cn (opt_kid (d_master d))) with (secs_styles d)
@@ -108,22 +141,20 @@ Proof.
   unfold cn. rewrite canon_is_element. rewrite Eff, Est, Ema in Hy.
   repeat (apply in_app_or in Hy as [Hy|Hy]); try (apply opt_kid_elem in Hy; subst y; reflexivity); destruct Hy as [<-|[]]; reflexivity.
 Qed.
-Lemma part_meta d : sections_ok d -> exists q a, cn (meta_tree tv d) = Elem q a (secs_meta d) /\ Forall good_section (secs_meta d).
+Lemma part_meta d : sections_named d -> exists q a, cn (meta_tree tv d) = Elem q a (secs_meta d) /\ Forall good_section (secs_meta d).
 Proof.
-  intros [[kme [Eme Hme]] _ _ _ _ _ _ _].
+  intros [[kme Eme] _ _ _ _ _ _ _].
   assert (E : d_meta (norm_gen tv d) = Elem (q_off "meta") [] (filter (fun c => negb (is_generator c)) kme ++ [Elem q_generator [] [TextN tv]])).
   { unfold norm_gen. cbn [d_meta]. now rewrite Eme. }
-  assert (H2 : forallb is_element (filter (fun c => negb (is_generator c)) kme ++ [Elem q_generator [] [TextN tv]]) = true).
-  { rewrite forallb_app. cbn. rewrite andb_true_r. rewrite forallb_forall in *. intros x Hx. apply filter_In in Hx as [Hx _]. now apply Hme. }
-  assert (G : Forall good_section (secs_meta d)) by (unfold secs_meta; rewrite E; repeat constructor; now apply good_cn_section).
+  assert (G : Forall good_section (secs_meta d)) by apply (good_map_cn [d_meta (norm_gen tv d)]).
   eexists. eexists. split; [|exact G]. unfold meta_tree. unfold cn at 1. cbn [canon map]. fold cn. f_equal.
   fold (secs_meta d). apply merge_text_elems. unfold secs_meta. rewrite E. reflexivity.
 Qed.
-Lemma part_settings d : sections_ok d -> has_kids (d_settings d) = true ->
+Lemma part_settings d : sections_named d -> has_kids (d_settings d) = true ->
   exists q a, cn (settings_tree d) = Elem q a (secs_settings d) /\ Forall good_section (secs_settings d).
 Proof.
-  intros [_ _ _ [kse [Ese Hse]] _ _ _ _] Hk.
-  assert (G : Forall good_section (secs_settings d)) by (unfold secs_settings; rewrite Hk, Ese; repeat constructor; now apply good_cn_section).
+  intros [_ _ _ [kse Ese] _ _ _ _] Hk.
+  assert (G : Forall good_section (secs_settings d)) by (unfold secs_settings; rewrite Hk; apply (good_map_cn [d_settings d])).
   eexists. eexists. split; [|exact G]. unfold settings_tree. unfold cn at 1. cbn [canon map]. fold cn. f_equal.
   replace [cn (d_settings d)] with (secs_settings d) by (unfold secs_settings; now rewrite Hk).
   apply merge_text_elems. unfold secs_settings. rewrite Hk, Ese. reflexivity.
@@ -133,7 +164,7 @@ Definition routed (d : odfdoc) : odfdoc :=
   fold_left (sec_apply PnStyles) (secs_styles d) (fold_left (sec_apply PnContent) (secs_content d)
     (fold_left (sec_apply PnMeta) (secs_meta d) (fold_left (sec_apply PnSettings) (secs_settings d) (empty_doc (d_mime d))))).
 
-Lemma load_is_routed d : sections_ok d -> NoDup (all_regs d) ->
+Lemma load_is_routed d : sections_named d -> NoDup (all_regs d) ->
   i_load_parts (d_mime d) (p_settings d) (p_meta d) (p_content d) (p_styles d) = routed d.
 Proof.
   intros HS Hd. unfold i_load_parts, load_parts, routed, all_regs in *.
@@ -220,11 +251,74 @@ Proof.
   unfold routed. rewrite S1, S2, S3, S4. unfold expected. rewrite Emeta, Esc, Eff, Ese, Est, Ema, Ebo. reflexivity.
 Qed.
 
+(* ---- the general form: sections with any children ---- *)
+Lemma opt_fold_gen pn d q ks s : route pn q = Some s ->
+  fold_left (sec_apply pn) (map cn (opt_kid (Elem q [] ks))) d = match ks with [] => d | _ => add_to d s (gk ks) end.
+Proof.
+  intros R. unfold opt_kid, has_kids. cbn [kids_of]. destruct ks as [|x r]; [reflexivity|].
+  cbn [map fold_left]. rewrite cn_named, (sec_apply_some pn d q [] _ s R). reflexivity.
+Qed.
+Lemma opt_fold_none_gen pn d q ks : route pn q = None -> fold_left (sec_apply pn) (map cn (opt_kid (Elem q [] ks))) d = d.
+Proof.
+  intros R. unfold opt_kid, has_kids. cbn [kids_of]. destruct ks as [|x r]; [reflexivity|].
+  cbn [map fold_left]. rewrite cn_named. now apply sec_apply_none.
+Qed.
+
+Lemma routed_gen d : sections_named d -> routed d = expected_gen d.
+Proof.
+  intros [[kme Eme] [ksc Esc] [kff Eff] [kse Ese] [kst Est] [kau Eau] [kma Ema] [kbo Ebo]].
+  pose proof (used_elems [d_styles d; d_body d] (d_auto d)) as Huc. fold (used_c d) in Huc.
+  pose proof (used_elems [d_master d] (d_auto d)) as Hus. fold (used_s d) in Hus.
+  set (gm := filter (fun c => negb (is_generator c)) kme ++ [Elem q_generator [] [TextN tv]]).
+  assert (Emeta : d_meta (norm_gen tv d) = Elem (q_off "meta") [] gm) by (unfold norm_gen; cbn [d_meta]; now rewrite Eme).
+  assert (S1 : fold_left (sec_apply PnSettings) (secs_settings d) (empty_doc (d_mime d)) = D0 (d_mime d) [] [] [] (gk kse) [] [] [] []).
+  { unfold secs_settings. rewrite Ese. unfold has_kids. cbn [kids_of]. destruct kse as [|x r]; [reflexivity|].
+    cbn [fold_left]. rewrite cn_named, (sec_apply_some PnSettings _ (q_off "settings") [] _ SSettings R_set). reflexivity. }
+  assert (S2 : fold_left (sec_apply PnMeta) (secs_meta d) (D0 (d_mime d) [] [] [] (gk kse) [] [] [] []) = D0 (d_mime d) (gk gm) [] [] (gk kse) [] [] [] []).
+  { unfold secs_meta. rewrite Emeta. cbn [fold_left]. rewrite cn_named, (sec_apply_some PnMeta _ (q_off "meta") [] _ SMeta R_meta). reflexivity. }
+  assert (S3 : fold_left (sec_apply PnContent) (secs_content d) (D0 (d_mime d) (gk gm) [] [] (gk kse) [] [] [] []) =
+               D0 (d_mime d) (gk gm) (gk ksc) [] (gk kse) [] (map cn (used_c d)) [] (gk kbo)).
+  { unfold secs_content. rewrite Esc, Eff, Ebo, !map_app, !fold_left_app.
+    rewrite (opt_fold_gen PnContent _ (q_off "scripts") ksc SScripts R_c_scripts), (opt_fold_none_gen PnContent _ (q_off "font-face-decls") kff R_c_ffd).
+    cbn [map fold_left]. rewrite q_auto_eq, (cn_section _ _ Huc), cn_named.
+    rewrite (sec_apply_some PnContent _ (q_off "automatic-styles") [] _ SAuto R_c_auto), (sec_apply_some PnContent _ (q_off "body") [] _ SBody R_c_body), (keep_cn _ Huc).
+    destruct ksc as [|x r]; reflexivity. }
+  assert (S4 : fold_left (sec_apply PnStyles) (secs_styles d) (D0 (d_mime d) (gk gm) (gk ksc) [] (gk kse) [] (map cn (used_c d)) [] (gk kbo)) =
+               D0 (d_mime d) (gk gm) (gk ksc) (gk kff) (gk kse) (gk kst) (map cn (used_c d) ++ map cn (used_s d)) (gk kma) (gk kbo)).
+  { unfold secs_styles. rewrite Eff, Est, Ema, !map_app, !fold_left_app.
+    rewrite (opt_fold_gen PnStyles _ (q_off "font-face-decls") kff SFfd R_s_ffd).
+    cbn [map fold_left]. rewrite q_auto_eq, cn_named, (cn_section _ _ Hus).
+    rewrite (sec_apply_some PnStyles _ (q_off "styles") [] _ SStyles R_s_styles), (sec_apply_some PnStyles _ (q_off "automatic-styles") [] _ SAuto R_s_auto), (keep_cn _ Hus).
+    rewrite (opt_fold_gen PnStyles _ (q_off "master-styles") kma SMaster R_s_master).
+    destruct kff as [|x r], kma as [|y r2]; reflexivity. }
+  unfold routed. rewrite S1, S2, S3, S4. unfold expected_gen. rewrite Emeta, Esc, Eff, Ese, Est, Ema, Ebo. reflexivity.
+Qed.
+
+(* with element-only sections the general form is the one above *)
+Lemma expected_gen_strict d : sections_ok d -> expected_gen d = expected d.
+Proof. intros HS. rewrite <- (routed_gen d (sections_ok_named d HS)). now apply routed_expected. Qed.
+
+Theorem load_saved_gen d : sections_named d -> NoDup (all_regs d) ->
+  i_load_doc (d_mime d) (p_settings d) (p_meta d) (p_content d) (p_styles d) = finish (expected_gen d).
+Proof.
+  intros HS Hd. unfold i_load_doc, load_doc. fold (i_load_parts (d_mime d) (p_settings d) (p_meta d) (p_content d) (p_styles d)).
+  rewrite (load_is_routed d HS Hd). f_equal. now apply routed_gen.
+Qed.
+Theorem save_load_roundtrip_gen env d : sections_named d -> NoDup (all_regs d) ->
+  doc_ok F env (settings_tree d) = true -> doc_ok F env (meta_tree tv d) = true ->
+  doc_ok F env (content_tree RA d) = true -> doc_ok F env (styles_tree RA d) = true ->
+  i_load_doc (d_mime d) (if has_kids (d_settings d) then xml_parse (i_settingsxml env d) else None)
+             (xml_parse (snd (i_metaxml env d))) (xml_parse (i_contentxml env d)) (xml_parse (i_stylesxml env d)) = finish (expected_gen d).
+Proof.
+  intros HS Hd O1 O2 O3 O4. rewrite (settings_roundtrip env d O1), (meta_roundtrip env d O2), (content_roundtrip env d O3), (styles_roundtrip env d O4).
+  apply (load_saved_gen d HS Hd).
+Qed.
+
 Theorem load_saved d : sections_ok d -> NoDup (all_regs d) ->
   i_load_doc (d_mime d) (p_settings d) (p_meta d) (p_content d) (p_styles d) = finish (expected d).
 Proof.
   intros HS Hd. unfold i_load_doc, load_doc. fold (i_load_parts (d_mime d) (p_settings d) (p_meta d) (p_content d) (p_styles d)).
-  rewrite (load_is_routed d HS Hd). f_equal. now apply routed_expected.
+  rewrite (load_is_routed d (sections_ok_named d HS) Hd). f_equal. now apply routed_expected.
 Qed.
 
 (* from the bytes: each part parses to the tree it serialises (C01/C02), and the loader takes it from there *)
@@ -375,3 +469,63 @@ Proof.
 Qed.
 Theorem styles_font_decls_kept a ks : kids_routed PnStyles SFfd [Elem (q_off "font-face-decls") a ks] = keep ks.
 Proof. cbn [kids_routed flat_map]. rewrite R_s_ffd. cbn [secid_eqb]. apply app_nil_r. Qed.
+
+(* ---- what load() returns always has the eight sections in the general form, so saving it and loading again is covered
+   by the general round trip: no hypothesis on the source beyond the one on names ---- *)
+Lemma named_add q t ks : named q t -> named q (add_kids t ks).
+Proof. intros [k ->]. now exists (k ++ ks). Qed.
+Lemma named_add_to d s ks : sections_named d -> sections_named (add_to d s ks).
+Proof. intros [H1 H2 H3 H4 H5 H6 H7 H8]. destruct s; constructor; cbn [add_to d_meta d_scripts d_ffd d_settings d_styles d_auto d_master d_body]; try assumption; now apply named_add. Qed.
+Lemma named_load_section pn acc sec : sections_named (snd acc) -> sections_named (snd (load_section i_redirected pn acc sec)).
+Proof.
+  intros H. destruct sec as [q a ks|t|t]; cbn [load_section]; try exact H. destruct (route pn q) as [s|]; [|exact H].
+  destruct (ld_kids i_redirected (fst acc) (sec_q s) (keep ks)) as [st' ks']. cbn [snd]. now apply named_add_to.
+Qed.
+Lemma named_load_sections pn secs : forall acc, sections_named (snd acc) -> sections_named (snd (fold_left (load_section i_redirected pn) secs acc)).
+Proof. induction secs as [|x r IH]; intros acc H; [exact H|]. cbn [fold_left]. apply IH. now apply named_load_section. Qed.
+Lemma named_load_part pn acc p : sections_named (snd acc) -> sections_named (snd (load_part i_redirected pn acc p)).
+Proof. intros H. rewrite load_part_secs. now apply named_load_sections. Qed.
+Lemma named_empty mime : sections_named (empty_doc mime).
+Proof. constructor; eexists; reflexivity. Qed.
+Lemma named_finish d : sections_named d -> sections_named (finish d).
+Proof. intros [H1 H2 H3 H4 H5 [k E] H7 H8]. constructor; cbn [finish d_meta d_scripts d_ffd d_settings d_styles d_auto d_master d_body]; try assumption. rewrite E. now eexists. Qed.
+Theorem loaded_named mime se me co st : sections_named (i_load_doc mime se me co st).
+Proof.
+  unfold i_load_doc, load_doc. apply named_finish. unfold load_parts.
+  apply named_load_part, named_load_part, named_load_part, named_load_part. apply named_empty.
+Qed.
+
+(* load, save, load: for ANY parts (no condition on the source at all beyond what the second load needs: no two
+   registered style names alike, and the parts of the loaded document within the serialiser's domain) *)
+Theorem resave_gen env mime se me co st : let d := i_load_doc mime se me co st in
+  NoDup (all_regs d) ->
+  doc_ok F env (settings_tree d) = true -> doc_ok F env (meta_tree tv d) = true ->
+  doc_ok F env (content_tree RA d) = true -> doc_ok F env (styles_tree RA d) = true ->
+  i_load_doc (d_mime d) (if has_kids (d_settings d) then xml_parse (i_settingsxml env d) else None)
+             (xml_parse (snd (i_metaxml env d))) (xml_parse (i_contentxml env d)) (xml_parse (i_stylesxml env d)) = finish (expected_gen d).
+Proof. intros d. apply save_load_roundtrip_gen. apply loaded_named. Qed.
+
+(* non-vacuity of the general form: a document with white space between the children of its sections (what load()
+   returns for a pretty-printed package), a section holding only white space, and text around a style *)
+Definition ws : node := TextN [10; 32; 32].
+Definition ex_pp : odfdoc :=
+  mkDoc (s2l "application/vnd.oasis.opendocument.text")
+    (Elem (q_off "meta") [] [ws; Elem q_generator [] [TextN (s2l "Other/1.0")]; ws])
+    (Elem (q_off "scripts") [] [ws]) (Elem (q_off "font-face-decls") [] [])
+    (Elem (q_off "settings") [] [])
+    (Elem (q_off "styles") [] [ws; ex_style "Standard"; ws])
+    (Elem (q_off "automatic-styles") [] [ws; ex_style "P1"; ws; ex_style "P2"; ex_style "P3"; ws])
+    (Elem (q_off "master-styles") [] [ws; Elem (sSTYLENS, s2l "master-page") [((sSTYLENS, s2l "name"), s2l "M")] [ex_p "P2" "head"]; CDataN [10]])
+    (Elem (q_off "body") [] [ws; Elem (q_off "text") [] [ex_p "P1" "a < b"; ws; ex_p "Standard" "x"]; TextN [10]; TextN [32]]).
+Example ex_pp_runs : sections_named ex_pp /\ ~ sections_ok ex_pp /\ NoDup (all_regs ex_pp) /\
+  i_load_doc (d_mime ex_pp) None (xml_parse (snd (i_metaxml ex_env ex_pp))) (xml_parse (i_contentxml ex_env ex_pp)) (xml_parse (i_stylesxml ex_env ex_pp)) = finish (expected_gen ex_pp) /\
+  d_scripts (expected_gen ex_pp) = Elem (q_off "scripts") [] [] /\
+  d_body (expected_gen ex_pp) = Elem (q_off "body") [] [ws; Elem (q_off "text") [] [ex_p "P1" "a < b"; ws; ex_p "Standard" "x"]; TextN [10; 32]].
+Proof.
+  split; [constructor; eexists; reflexivity|]. split.
+  { intros [_ [ks [E H]] _ _ _ _ _ _]. cbn in E. injection E as <-. discriminate. }
+  split.
+  { assert (E : all_regs ex_pp = [s2l "P1"; s2l "Standard"; s2l "P2"]) by (vm_compute; reflexivity). rewrite E.
+    repeat constructor; cbn; intuition discriminate. }
+  split; [vm_compute; reflexivity|]. split; vm_compute; reflexivity.
+Qed.
